@@ -99,5 +99,12 @@ func (s *streamer) Stream() error {
 		}
 	}
 
+	// the input may have ended because reading failed or a line exceeded the size limit
+	if failer, ok := s.importer.(interface{ Err() error }); ok {
+		if err := failer.Err(); err != nil {
+			return s.processor(nil, fmt.Errorf("%w", err))
+		}
+	}
+
 	return nil
 }
